@@ -10,6 +10,8 @@ DEVS = {
     "Dev_QuitRefusedWhenBusy": "FALSE",      # D6: repaired by 87748aa
     "Dev_SocketEventStartsAll": "FALSE",     # D13: repaired (arbiter.manage_watchers)
     "Dev_OpsAfterStop": "FALSE",             # D19: repaired (util.synchronized refuses once the arbiter is stopping)
+    "Dev_ChildrenRelisted": "TRUE",          # D17 (the repair - signalling the child objects of the first listing - needs a
+                                             # new Process method, which the FakeProcess of tests/test_watcher.py lacks)
 }
 
 
